@@ -20,6 +20,10 @@ inductive Reachable : Book → Prop
   | untrust {b} (a) : Reachable b → Reachable (b.removeTrusted a)
   /-- truncation at any cut (the BFS position rule of the code only narrows the choice) -/
   | truncate {b} (cut : Hash) : Reachable b → Reachable (b.truncateAt cut).1
+  /-- any run of internal transitions: in particular the locked bodies of `CreateLeaf` / `addLeafMemorized`
+  executed on whatever the book has become by the time the lock is obtained, i.e. with stale pre-lock
+  checks (`Proofs/StaleGuards.lean`) -/
+  | steps {b b'} : Reachable b → Steps b b' → Reachable b'
 
 /-- **Main lift**: every reachable book satisfies the index, sealing, verification and orphan-buffer
 invariants. -/
@@ -33,6 +37,7 @@ theorem Reachable.inv {b : Book} (r : Reachable b) : LedgerInv b := by
   | trust a _ ih => exact ih.tr (Tr.misc (coreEq_addTrusted _ a))
   | untrust a _ ih => exact ih.tr (Tr.misc (coreEq_removeTrusted _ a))
   | truncate cut _ ih => exact ih.truncate cut
+  | steps _ s ih => exact ih.steps s
 
 
 theorem Reachable.fundsOK {b : Book} (r : Reachable b) : FundsOK b where
